@@ -313,8 +313,11 @@ where
                     Expr::Ident(ident.clone())
                 }
             }
-            JSXElementName::JSXMemberExpr(expr) => Expr::JSXMember(expr.clone()),
-            JSXElementName::JSXNamespacedName(name) => Expr::JSXNamespacedName(name.clone()),
+            JSXElementName::JSXMemberExpr(expr) => jsx_member_to_expr(expr),
+            JSXElementName::JSXNamespacedName(name) => Expr::Lit(Lit::Str(quote_str!(format!(
+                "{}:{}",
+                name.ns.sym, name.name.sym
+            )))),
         }
     }
 
@@ -1708,6 +1711,21 @@ where
             Expr::Lit(Lit::Str(quote_str!(name.sym.clone()))),
         );
     }
+}
+
+/// `<a.b.c />` denotes the value of the member expression `a.b.c`.
+fn jsx_member_to_expr(jsx_member_expr: &JSXMemberExpr) -> Expr {
+    Expr::Member(MemberExpr {
+        span: DUMMY_SP,
+        obj: Box::new(match &jsx_member_expr.obj {
+            JSXObject::Ident(ident) if &*ident.sym == "this" => {
+                Expr::This(ThisExpr { span: ident.span })
+            }
+            JSXObject::Ident(ident) => Expr::Ident(ident.clone()),
+            JSXObject::JSXMemberExpr(expr) => jsx_member_to_expr(expr),
+        }),
+        prop: MemberProp::Ident(jsx_member_expr.prop.clone()),
+    })
 }
 
 fn inject_define_component_option(call: &mut CallExpr, name: &'static str, value: Expr) {
